@@ -900,7 +900,8 @@ impl<'input, T: Input> Scanner<'input, T> {
             }
         }
 
-        if need_whitespace {
+        // The end of the input separates as well as a line break does (`?` as the last character).
+        if need_whitespace && !self.input.next_is_z() {
             Err(ScanError::new_str(self.mark(), "expected whitespace"))
         } else {
             Ok(())
